@@ -133,7 +133,9 @@ func cloneHeader(in http.Header) http.Header {
 func (spCtx *serverPoolContext) prepareRequest(svr *Server, ctx stdcontext.Context, mirror bool) error {
 	req := spCtx.req
 
-	url := svr.URL + req.Path()
+	// use the escaped form of the path: in the decoded form, an encoded
+	// '?', '#', '/' or '%' is indistinguishable from the real delimiter.
+	url := svr.URL + req.Std().URL.EscapedPath()
 	if rq := req.Std().URL.RawQuery; rq != "" {
 		url += "?" + rq
 	}
